@@ -109,6 +109,8 @@ def _allowed(site) -> Optional[str]:
 
 
 def run(db, chk) -> None:
+    from ..specs.discipline import check_stateless
+    check_stateless(db, chk, "C20.R-stateless", ["hta.analyzers.critical_path_analysis"], scope=["CriticalPathAnalysis.overlay_critical_path_analysis"])    # incl. "no generator consumed twice" for the edge stream of the overlay
     from ..specs.discipline import check_facade_stateless
     check_facade_stateless(db, chk, "C20.R-facade-stateless", ['generate_trace_with_counters', 'overlay_critical_path_analysis'])
     ta, cp, tf, tm, tp = (db.mod(x) for x in ("hta.trace_analysis", "hta.analyzers.critical_path_analysis", "hta.common.trace_file", "hta.common.trace", "hta.common.trace_parser"))
